@@ -11,7 +11,7 @@ open AM.Snapshot (Bytes)
 def TargetWF (fs : FS) (target : String) : Prop :=
   ∀ j id, (fs.dirAt j).get target = some id → id < fs.inodes.length
 
-theorem crashRead_during_old (fs0 : FS) (tmp target : String) (d : Bytes) (s : Nat) (fd : Option Nat)
+theorem crashRead_during_old (fs0 : FS) (tmp target : String) (d : Bytes) (s : Nat) (fd : Option (Nat × Nat))
     (extra : List DirOp) (hwf : TargetWF fs0 target) (j j' m : Nat)
     (h : ((during fs0 tmp d s fd extra).dirAt j).get target = (fs0.dirAt j').get target) :
     crashRead (during fs0 tmp d s fd extra) j m target = crashRead fs0 j' m target := by
@@ -24,7 +24,7 @@ theorem crashRead_during_old (fs0 : FS) (tmp target : String) (d : Bytes) (s : N
     simp only [during]
     rw [List.getElem?_append_left hlt]
 
-theorem crashRead_during_new (fs0 : FS) (tmp target : String) (new : Bytes) (fd : Option Nat)
+theorem crashRead_during_new (fs0 : FS) (tmp target : String) (new : Bytes) (fd : Option (Nat × Nat))
     (extra : List DirOp) (j m : Nat)
     (h : ((during fs0 tmp new new.length fd extra).dirAt j).get target = some fs0.inodes.length) :
     crashRead (during fs0 tmp new new.length fd extra) j m target = some new := by
@@ -42,7 +42,7 @@ theorem crash_point_cases_phase (fs0 : FS) (tmp target : String) (new : Bytes)
     (∃ j', (fs.log.length ≤ j → fs0.log.length ≤ j') ∧
         crashRead fs j m target = crashRead fs0 j' m target) ∨
     crashRead fs j m target = some new := by
-  have old_case : ∀ (d : Bytes) (s : Nat) (fd : Option Nat),
+  have old_case : ∀ (d : Bytes) (s : Nat) (fd : Option (Nat × Nat)),
       ∃ j', ((during fs0 tmp d s fd []).log.length ≤ j → fs0.log.length ≤ j') ∧
         crashRead (during fs0 tmp d s fd []) j m target = crashRead fs0 j' m target := by
     intro d s fd
@@ -83,25 +83,25 @@ theorem crash_point_cases_phase (fs0 : FS) (tmp target : String) (new : Bytes)
     snapshot run the target reads as it would have in some crash state `(j', m)`
     of the start state — with `j'` a *current* version if `j` is — or it reads
     the complete new snapshot. -/
-theorem crash_point_cases (fs0 : FS) (tmp target : String) (chunks : List Bytes)
+theorem crash_point_cases (fs0 : FS) (tmp target : String) (trunc : Bool) (chunks : List Bytes)
     (hne : tmp ≠ target) (hfresh : fs0.dirNow.get tmp = none) (hwf : TargetWF fs0 target)
     (i j m : Nat) :
-    (∃ j', ((run fs0 ((snapshotOps tmp target chunks).take i)).log.length ≤ j → fs0.log.length ≤ j') ∧
-        crashRead (run fs0 ((snapshotOps tmp target chunks).take i)) j m target = crashRead fs0 j' m target) ∨
-    crashRead (run fs0 ((snapshotOps tmp target chunks).take i)) j m target = some chunks.flatten :=
+    (∃ j', ((run fs0 ((snapshotOps tmp trunc target chunks).take i)).log.length ≤ j → fs0.log.length ≤ j') ∧
+        crashRead (run fs0 ((snapshotOps tmp trunc target chunks).take i)) j m target = crashRead fs0 j' m target) ∨
+    crashRead (run fs0 ((snapshotOps tmp trunc target chunks).take i)) j m target = some chunks.flatten :=
   crash_point_cases_phase fs0 tmp target chunks.flatten hne hwf j m _
-    (phase_of_take fs0 tmp target chunks hfresh i)
+    (phase_of_take fs0 tmp target trunc chunks hfresh i)
 
 /-- after a completed run: current versions read the new snapshot, and the target stays well-formed -/
-theorem after_snapshot (fs0 : FS) (tmp target : String) (chunks : List Bytes)
+theorem after_snapshot (fs0 : FS) (tmp target : String) (trunc : Bool) (chunks : List Bytes)
     (hne : tmp ≠ target) (hfresh : fs0.dirNow.get tmp = none) (hwf : TargetWF fs0 target) :
-    let fs := run fs0 (snapshotOps tmp target chunks)
+    let fs := run fs0 (snapshotOps tmp trunc target chunks)
     TargetWF fs target ∧
     (∀ j m, fs.log.length ≤ j → crashRead fs j m target = some chunks.flatten) ∧
     (∀ q, q ≠ target → fs0.dirNow.get q = none → fs.dirNow.get q = none) := by
   intro fs
   have hfs : fs = during fs0 tmp chunks.flatten chunks.flatten.length none [.rename tmp target] :=
-    run_snapshot fs0 tmp target chunks hfresh
+    run_snapshot fs0 tmp target trunc chunks hfresh
   refine ⟨?_, ?_, ?_⟩
   · intro j id hg
     rw [hfs] at hg ⊢
